@@ -4,7 +4,7 @@ import random
 RULE = ("each case runs propka.run.single on a structure (repository proteins, cut-outs, acid-only / "
         "base-only / no-titratable-group subsets, the multi-conformation files) with a random -g grid, "
         "then calls get_charge_profile and get_pi on the result with random grids, windows and "
-        "precisions 1e-2..1e-6; for multi-conformation inputs a .pka file is written per conformation "
+        "precisions 1e-2..1e-6 and non-powers of ten (0.02, 0.005, 2e-4 ...); for multi-conformation inputs a .pka file is written per conformation "
         "(propka.output.write_pka) and its table and pI line are checked against that conformation. Oracle: an independent Henderson-Hasselbalch evaluation from the group "
         "records (folded <- predicted pKa, unfolded <- model pKa); contract on every "
         "Group.calculate_charge call. Non-trivial: the structure has >= 2 titratable groups whose "
@@ -153,7 +153,7 @@ def run_case(case, tier):
     # pI through the API with windows and precisions
     pichecked = 0
     for _ in range(4):
-        prec = rng.choice((1e-2, 1e-3, 1e-4, 1e-5, 1e-6))
+        prec = rng.choice((1e-2, 1e-3, 1e-4, 1e-5, 1e-6, 0.02, 0.005, 2e-4, 0.03, 7e-3, 0.25))
         lo = rng.choice((0.0, 0.0, 2.0, -2.0, 5.0))
         hi = rng.choice((14.0, 14.0, 12.0, 16.0, 9.0))
         pi = mol.get_pi(conformation="AVR", grid=(lo, hi), precision=prec)
